@@ -376,7 +376,8 @@ def getattr_(I, obj, name, node):
         if name == "args":
             return obj.args
         raise SymError("exception attribute %s" % name)
-    if isinstance(obj, (SBytes, SList, list, tuple, dict, set, bytes, str, sx.SMatch, SIterator)) or L.is_z3(obj):
+    from .values import SMap as _SMap
+    if isinstance(obj, (SBytes, SList, list, tuple, dict, set, bytes, str, sx.SMatch, SIterator, _SMap)) or L.is_z3(obj):
         return sx.SBoundBuiltin(obj, name)
     if isinstance(obj, (int, Fraction)) and not isinstance(obj, bool):
         return sx.SBoundBuiltin(obj, name)
